@@ -16,12 +16,18 @@ os.environ.setdefault("PYTHONWARNINGS", "ignore")
 def main(argv):
     import warnings
     warnings.simplefilter("ignore")
+    import atexit
+    from sim import core
+    atexit.register(core.cleanup_all)
     if len(argv) >= 3 and argv[0] == "check":
         from sim import harness
+        core.purge_stale()
         kw = {}
         for a in argv[3:]:
             k, _, v = a.partition("=")
             kw[k.lstrip("-")] = int(v)
+        if kw or os.environ.get("VERIF_REPO"):
+            kw.setdefault("write_evidence", 0)      # partial or mutant runs never overwrite the evidence file
         return harness.run_check(argv[1].upper(), argv[2], **kw)
     if len(argv) == 2 and argv[0] == "replay":
         from sim import harness
